@@ -88,6 +88,8 @@ class Mon:
             ctx.state('html:callback-types', gram)
             if toks:
                 ctx.seen(('h', s))
+                if len(ctx.samples) < 2 and len(toks) >= 2 and len(s) > 8:
+                    ctx.sample({'language': 'html', 'source': s[:120], 'scan_callbacks': [list(t) for t in toks[:6]], 'positions_checked': '-1..%d' % (n + 1)})
         ctx.mon('oracle:attributes')
         for name in (None, 'a'):
             r = core.call(h.attributes, s, name)
@@ -176,6 +178,8 @@ class Mon:
             ctx.state('css:callback-types', gram)
             if toks:
                 ctx.seen(('c', s))
+                if len(ctx.samples) < 4 and len(toks) >= 3 and len(s) > 8:
+                    ctx.sample({'language': 'css', 'source': s[:120], 'scan_callbacks': [list(t) for t in toks[:6]]})
         ctx.mon('oracle:split-value')
         r = core.call(c.split_value, s)
         if r[0] == 'exc':
